@@ -936,6 +936,102 @@ def canon_of_store(store):
     return {o.id: norm(aasgen.canon(o)) for o in store}
 
 
+# ------------------------------------------------------------------------------------------------- reference sweep
+# The key chains of References that the metamodel admits (Part 1 V3.0, constraints AASd-121 ... AASd-128), written from
+# the specification's enumerations only - no SDK constructor is involved, so the sweep exists whatever the SDK's own
+# constraint checks say:
+#   AasIdentifiables            first key of a model reference (AASd-123)
+#   AasSubmodelElements         = AasReferableNonIdentifiables, concrete and abstract classes alike; together with
+#                               FragmentReference these are the FragmentKeyElements allowed after the first key (AASd-125)
+#   FragmentReference           only as the last key (AASd-126) and only after File or Blob (AASd-127)
+#   key after SubmodelElementList has an integer value (AASd-128)
+#   external reference: first key GlobalReference (AASd-122), last key GlobalReference or FragmentReference (AASd-124)
+def _enum_name(literal):
+    return re.sub(r"(?<=[a-z0-9])(?=[A-Z])", "_", literal).upper()
+
+
+AAS_IDENTIFIABLES = ["ASSET_ADMINISTRATION_SHELL", "CONCEPT_DESCRIPTION", "SUBMODEL"]
+AAS_SUBMODEL_ELEMENTS = [_enum_name(x) for x in schemas.SME_CLASS_LITERALS]
+
+
+def reference_chains():
+    """[(class, [key type, ...])]: every key type at every position the constraints allow it at (chains up to 4 keys)"""
+    sme = AAS_SUBMODEL_ELEMENTS
+    out = [("ModelReference", [f]) for f in AAS_IDENTIFIABLES]
+    out += [("ModelReference", [f, x]) for f in AAS_IDENTIFIABLES for x in sme]
+    out += [("ModelReference", ["SUBMODEL", x, sme[(3 * i + 1) % len(sme)]]) for i, x in enumerate(sme)]
+    out += [("ModelReference", ["SUBMODEL", "SUBMODEL_ELEMENT_COLLECTION", x]) for x in sme]
+    out += [("ModelReference", ["SUBMODEL", "SUBMODEL_ELEMENT_LIST", "SUBMODEL_ELEMENT_LIST", x]) for x in sme[::4]]
+    out += [("ModelReference", ["SUBMODEL"] + mid + [fb, "FRAGMENT_REFERENCE"])
+            for fb in ("FILE", "BLOB") for mid in ([], ["ENTITY"], ["SUBMODEL_ELEMENT_LIST"])]
+    out += [("ExternalReference", ch) for ch in (["GLOBAL_REFERENCE"], ["GLOBAL_REFERENCE", "GLOBAL_REFERENCE"],
+                                                 ["GLOBAL_REFERENCE", "FRAGMENT_REFERENCE"],
+                                                 ["GLOBAL_REFERENCE", "FRAGMENT_REFERENCE", "FRAGMENT_REFERENCE"],
+                                                 ["GLOBAL_REFERENCE", "GLOBAL_REFERENCE", "FRAGMENT_REFERENCE"])]
+    return out
+
+
+def blank(cls, **kw):
+    """canonical form (aasgen.canon / norm) of an object of class cls with every optional attribute absent"""
+    out = {"_class": cls}
+    for attr, kind in aasgen.META[cls]:
+        out[attr] = [] if kind.startswith(("list:", "set:")) or kind in ("reflist", "refset") else None
+    d = {a: v[1] for (c, a), v in schemas.DEFAULTS.items() if c == cls}
+    out.update(d)
+    out.update(kw)
+    return out
+
+
+def chain_reference(cls, chain, n=0):
+    keys = []
+    for i, kt in enumerate(chain):
+        if i == 0:
+            value = f"https://example.org/ref/{n}" if cls == "ModelReference" else f"0173-1#02-AAO{n:03d}#002"
+        elif chain[i - 1] == "SUBMODEL_ELEMENT_LIST":
+            value = str((n + i) % 7)
+        else:
+            value = f"target{n}_{i}"
+        keys.append({"_class": "Key", "type": kt, "value": value})
+    return blank(cls, key=keys)
+
+
+REFERENCE_SITES = ["ReferenceElement.value", "RelationshipElement.first", "RelationshipElement.second",
+                   "Capability.semantic_id", "Property.value_id", "Capability.supplemental_semantic_id",
+                   "Extension.refers_to", "BasicEventElement.observed", "SubmodelElementList.semantic_id_list_element"]
+
+
+def reference_sweep():
+    """[(canons of one store, class, chain, site)]: one small store per admissible key chain, the reference placed at
+    the attributes that hold references in turn (attributes typed ModelReference only get model references)"""
+    out = []
+    for n, (cls, chain) in enumerate(reference_chains()):
+        ref = chain_reference(cls, chain, n)
+        site = REFERENCE_SITES[n % len(REFERENCE_SITES)]
+        if cls != "ModelReference" and site in ("Extension.refers_to", "BasicEventElement.observed"):
+            site = "ReferenceElement.value"
+        holder, attr = site.split(".")
+        other = chain_reference("ExternalReference", ["GLOBAL_REFERENCE"], n + 500)
+        if holder == "RelationshipElement":
+            el = blank(holder, id_short=f"el{n}", first=other, second=other)
+            el[attr] = ref
+        elif attr == "supplemental_semantic_id":
+            el = blank(holder, id_short=f"el{n}", semantic_id=other, supplemental_semantic_id=[other, ref])
+        elif holder == "Extension":
+            el = blank("Capability", id_short=f"el{n}", extension=[blank("Extension", name=f"ext{n}", refers_to=[ref])])
+        elif holder == "Property":
+            el = blank(holder, id_short=f"el{n}", value_type="str", value_id=ref)
+        elif holder == "BasicEventElement":
+            el = blank(holder, id_short=f"el{n}", observed=ref, direction="OUTPUT", state="ON")
+        elif holder == "SubmodelElementList":
+            el = blank(holder, id_short=f"el{n}", type_value_list_element="Capability", semantic_id_list_element=ref)
+        else:
+            el = blank(holder, id_short=f"el{n}")
+            el[attr] = ref
+        out.append(([norm(blank("Submodel", id=f"https://example.org/sm/refsweep/{n}", submodel_element=[el]))],
+                    cls, chain, site))
+    return out
+
+
 # ------------------------------------------------------------------------------------------------- mapping skeletons
 # The document the mapping prescribes for a store (IndependentWriter) and the document the SDK wrote must agree in every
 # member / element name, nesting position and string, except (a) the spelling of typed literals (judged separately
